@@ -35,6 +35,21 @@ mkdir -p "$VERIF/.work" "$VERIF/.bin"
   echo ")"
 } > "$priv.tmp.$$" && mv "$priv.tmp.$$" "$priv"
 cp "$REPO/go.sum" "${priv%.mod}.sum"
+# E3: compile verifier/walk.go from a copy whose go statement / channel operations go through the vsched shims
+# (pass-through outside a managed execution), merged with the in-package overlay prepared by ./check.
+baseovl=""; rest=()
+set -- ${args[@]+"${args[@]}"}
+while [ $# -gt 0 ]; do
+  case "$1" in
+    -overlay) baseovl="$2"; shift 2 ;;
+    *) rest+=("$1"); shift ;;
+  esac
+done
+rw="$VERIF/.work/rw-c11-$tag"; rm -rf "$rw"; mkdir -p "$rw"
+go build -o "$VERIF/.bin/vrewrite" ./cmd/vrewrite || { echo "CHECK-BROKEN C11: vrewrite build failed" >&2; exit 2; }
+"$VERIF/.bin/vrewrite" -repo "$REPO" -src "$VERIF/mc/vsched_src" -out "$rw" -overlay "$rw/overlay.json" ${baseovl:+-merge "$baseovl"} 'verifier/walk.go:full' 2> "$rw/rewrite.log" \
+  || { cat "$rw/rewrite.log" >&2; echo "CHECK-BROKEN C11: source rewriting failed" >&2; exit 2; }
+args=(${rest[@]+"${rest[@]}"} -overlay "$rw/overlay.json")
 if ! go build -modfile="$priv" ${args[@]+"${args[@]}"} -tags verif -o "$BIN" ./cmd/c11 2> "$BIN.buildlog"; then
   cat "$BIN.buildlog" >&2
   echo "CHECK-BROKEN C11: build failed" >&2
